@@ -425,6 +425,8 @@ func Run(cfg *common.Config) (*common.Report, error) {
 	}
 	d.removalStream()
 	lap("removal")
+	d.recomputeStream()
+	lap("recompute")
 	d.artefactStream()
 	lap("artefacts")
 	d.siblingStream()
@@ -588,7 +590,7 @@ func (d *drv) replay() error {
 		}
 		d.rep.Failures = keep
 		d.cases = nil
-	case "path", "path-string":
+	case "path", "path-string", "path-index", "slot-path":
 		d.pathStream()
 	case "status-go-value":
 		d.programmaticStatusStream()
